@@ -4,6 +4,7 @@ import (
 	"go/ast"
 	"go/token"
 	"go/types"
+	"strings"
 )
 
 // runInvokes executes the `invokes PARAM(NAME)` steps of a callee contract at a call site: the closure
@@ -69,4 +70,61 @@ func (c *FnCtx) pkgVarKey(m string) string {
 		return "PV:" + v.Pkg().Path() + "." + v.Name()
 	}
 	return ""
+}
+
+// axiomsForHide is axiomsFor minus the axiom families a function's contract hides (`hide card`): the
+// symbols stay uninterpreted in that function's queries. Hiding axioms only weakens the assumptions.
+func (d *Decls) axiomsForHide(body string, hide []string) string {
+	if len(hide) == 0 {
+		return d.axiomsFor(body)
+	}
+	hidden := func(name string) bool {
+		for _, h := range hide {
+			if len(name) >= len(h)+1 && name[:len(h)+1] == h+"." {
+				return true
+			}
+		}
+		return false
+	}
+	included := make([]bool, len(d.axioms))
+	for changed := true; changed; {
+		changed = false
+		for i, a := range d.axioms {
+			if included[i] || hidden(d.axiomName[i]) {
+				continue
+			}
+			ok := false
+			for _, t := range splitBar(d.axiomTrig[i]) {
+				if t != "" && strings.Contains(body, t) {
+					ok = true
+				}
+			}
+			if ok {
+				included[i] = true
+				changed = true
+				body += "\n" + a
+			}
+		}
+	}
+	out := ""
+	for i, a := range d.axioms {
+		if included[i] {
+			out += "; axiom " + d.axiomName[i] + "\n(assert " + a + ")\n"
+		}
+	}
+	return out
+}
+
+func splitBar(s string) []string {
+	var out []string
+	cur := ""
+	for _, r := range s {
+		if r == '|' {
+			out = append(out, cur)
+			cur = ""
+		} else {
+			cur += string(r)
+		}
+	}
+	return append(out, cur)
 }
